@@ -261,8 +261,10 @@ def run_case(col, pp, cfg, case):
         lbase = world.base(bench.view_container(left))
         # solvent part = solution minus solutes must be a uniform aliquot; nothing lost
         part = {nm: rbase.get(nm, 0.0) for nm in cbase}
-        ts = [part[nm] / cbase[nm] for nm in cbase if cbase[nm] > 0]
-        t = sum(ts) / len(ts) if ts else 0.0
+        # the common fraction, estimated with each substance weighted by how many storage grains it holds (a plain
+        # mean would let the rounding of a trace component move the estimate for the main one)
+        wts = {nm: cbase[nm] / ref.grain_base(nm) for nm in cbase if cbase[nm] > 0}
+        t = sum(wts[nm] * part[nm] / cbase[nm] for nm in wts) / sum(wts.values()) if wts else 0.0
         for nm in cbase:
             g = 4 * ref.grain_base(nm)
             if abs(part[nm] - t * cbase[nm]) > g + 1e-7 * cbase[nm]:
